@@ -64,22 +64,30 @@ func (mem *Memory) Name() string {
 func (mem *Memory) Get(key string) (*rspb.Release, error) {
 	defer unlock(mem.rlock())
 
-	keyWithoutPrefix := strings.TrimPrefix(key, "sh.helm.release.v1.")
-	switch elems := strings.Split(keyWithoutPrefix, ".v"); len(elems) {
-	case 2:
-		name, ver := elems[0], elems[1]
-		if _, err := strconv.Atoi(ver); err != nil {
-			return nil, ErrInvalidKey
-		}
-		if recs, ok := mem.cache[mem.namespace][name]; ok {
-			if r := recs.Get(key); r != nil {
-				return r.rls, nil
-			}
-		}
-		return nil, ErrReleaseNotFound
-	default:
+	name, ver, ok := splitKey(key)
+	if !ok {
 		return nil, ErrInvalidKey
 	}
+	if _, err := strconv.Atoi(ver); err != nil {
+		return nil, ErrInvalidKey
+	}
+	if recs, ok := mem.cache[mem.namespace][name]; ok {
+		if r := recs.Get(key); r != nil {
+			return r.rls, nil
+		}
+	}
+	return nil, ErrReleaseNotFound
+}
+
+// splitKey splits a key of the form "<name>.v<version>", with or without the
+// storage prefix, at its last ".v": a release name may itself contain ".v".
+func splitKey(key string) (name, ver string, ok bool) {
+	keyWithoutPrefix := strings.TrimPrefix(key, "sh.helm.release.v1.")
+	i := strings.LastIndex(keyWithoutPrefix, ".v")
+	if i < 0 {
+		return "", "", false
+	}
+	return keyWithoutPrefix[:i], keyWithoutPrefix[i+2:], true
 }
 
 // List returns the list of all releases such that filter(release) == true
@@ -199,14 +207,10 @@ func (mem *Memory) Update(key string, rls *rspb.Release) error {
 func (mem *Memory) Delete(key string) (*rspb.Release, error) {
 	defer unlock(mem.wlock())
 
-	keyWithoutPrefix := strings.TrimPrefix(key, "sh.helm.release.v1.")
-	elems := strings.Split(keyWithoutPrefix, ".v")
-
-	if len(elems) != 2 {
+	name, ver, ok := splitKey(key)
+	if !ok {
 		return nil, ErrInvalidKey
 	}
-
-	name, ver := elems[0], elems[1]
 	if _, err := strconv.Atoi(ver); err != nil {
 		return nil, ErrInvalidKey
 	}
